@@ -1,5 +1,6 @@
 // C01 — legal move generation is exact (differential against the rules oracle, lock-step tree walk)
 #include "bridge.h"
+#include "ucisession.h"
 #include "registry.h"
 #include "ucirig.h"
 
@@ -221,6 +222,7 @@ bool c01_uci_perft(Tape& t, Report& rep, const gen::Root& root)
 bool prop_C01(Tape& t, Report& rep)
 {
     br::init_engine();
+    if (t.chance(1, 15)) return us::run(t, rep, us::F_C01);
     gen::Root root = gen::gen_root(t, &rep, 80);
     rep.decoded = root.describe();
     rep.cls("root:" + root.kind);
